@@ -27,7 +27,8 @@ from collections.abc import MutableMapping
 from contextlib import contextmanager
 from struct import pack, unpack_from
 
-from .ebpf import AssembleError, Expression, Opcode, Map, FuncId
+from .ebpf import (
+    AssembleError, Expression, FuncId, Map, Memory, Opcode, fmtsize)
 from .bpf import (
     MapType, UpdateFlags, create_map, delete_elem, get_next_key, lookup_elem,
     lookup_and_delete_elem, update_elem)
@@ -94,8 +95,14 @@ class HashGlobalVarDesc:
             update_elem(fd, pack("B", self.count),
                         pack("q" if self.fmt.islower() else "Q", value))
             return
+        if isinstance(value, Memory) and fmtsize(value.fmt) < 8:
+            # the map copies 8 bytes: a shorter variable has to be
+            # extended, not copied together with its neighbours
+            address = Expression.get_address(value, 3, True, True)
+        else:
+            address = value.get_address(3, True, True)
         with ebpf.save_registers([3]):
-            with value.get_address(3, True, True):
+            with address:
                 with ebpf.save_registers([0, 1, 2, 4, 5]), \
                         ebpf.get_stack(4) as stack:
                     ebpf.r1 = ebpf.get_fd(ebpf.__dict__[self.name].fd)
